@@ -69,7 +69,7 @@ func genC36(t *rapid.T) C36Case {
 		}
 		c.Synth = append(c.Synth, d)
 	}
-	c.Sched = Sched{Tape: genTape(t, 500), Disabled: genDisabled(t, incrOptional)}
+	c.Sched = Sched{Tape: genTape(t, 500), Disabled: genDisabled(t, incrOptional), PCT: genPCT(t, 200)}
 	return c
 }
 
